@@ -5,7 +5,7 @@ from . import checklib
 
 
 def registry():
-    from . import checks_codec, checks_prim, checks_schema
+    from . import checks_codec, checks_prim, checks_records, checks_schema
     reg = {
         "C01": checks_codec.check_C01,
         "C02": checks_codec.check_C02,
@@ -19,6 +19,8 @@ def registry():
         "C12": checks_prim.check_C12,
         "C13": checks_schema.check_C13,
         "C14": checks_schema.check_C14,
+        "C17": checks_records.check_C17,
+        "C18": checks_records.check_C18,
     }
     return reg
 
